@@ -7,7 +7,10 @@ import (
 	"crypto/sha256"
 	"fmt"
 	"math/big"
+	"math/rand"
+	"path/filepath"
 	"sort"
+	"strings"
 	"testing"
 
 	"github.com/nspcc-dev/neo-go/pkg/config"
@@ -119,7 +122,11 @@ type gasEnv struct {
 	parties    [][]byte     // observed GAS accounts
 	partyNames []string
 	signers    map[string]neotest.Signer // by name
+	fsAlphaMulti neotest.Signer
+	junkKey    []byte
 }
+
+const gasUserFunds = 30000_0000_0000 // 30000 GAS
 
 func le(i int64) []byte {
 	b := big.NewInt(i)
@@ -228,7 +235,11 @@ func newGasEnv(t testing.TB, cfg gasEnvCfg) *gasEnv {
 			ka[i] = k.PublicKey().Bytes()
 		}
 		tx := e.NewUnsignedTx(t, e.NativeHash(t, nativenames.Designation), "designateAsRole", int64(noderoles.NeoFSAlphabet), ka)
-		e.SignTx(t, tx, 1_0000_0000, e.Validator, e.Committee)
+		if e.Validator.ScriptHash() == e.Committee.ScriptHash() {
+			e.SignTx(t, tx, 1_0000_0000, e.Validator)
+		} else {
+			e.SignTx(t, tx, 1_0000_0000, e.Validator, e.Committee)
+		}
 		addBlock(tx)
 	}
 
@@ -257,14 +268,32 @@ func newGasEnv(t testing.TB, cfg gasEnvCfg) *gasEnv {
 		g.signers[fmt.Sprintf("IR%d", i)] = neotest.NewSingleSigner(a)
 	}
 	for i, k := range ks {
+		// committee members are paid block rewards: signers, but not observed parties
 		g.signers[fmt.Sprintf("C%d", i)] = neotest.NewSingleSigner(wallet.NewAccountFromPrivateKey(k.PrivateKey()))
-		add(fmt.Sprintf("C%d", i), k.ScriptHash().BytesBE())
 	}
 	for i, p := range g.plain {
 		add(fmt.Sprintf("P%d", i), p)
 	}
 	g.signers["alpha"] = g.alphaMulti
+	g.signers["committee"] = e.Committee
 	g.signers["validator"] = e.Validator
+	if len(g.alpha) > 0 {
+		g.fsAlphaMulti = multisigOf(len(g.alpha)*2/3+1, g.alpha)
+	} else {
+		g.fsAlphaMulti = e.Validator // 1-of-1 over committee key 0
+	}
+	g.signers["fsalpha"] = g.fsAlphaMulti
+	// funding: U0..U2 hold GAS and dummy tokens, U3 holds nothing
+	{
+		var txs []*transaction.Transaction
+		for i := 0; i < 3; i++ {
+			txs = append(txs, xfer(g.users[i].ScriptHash(), gasUserFunds, nil))
+			tx := e.NewUnsignedTx(t, g.token, "mint", g.users[i].ScriptHash(), 1000000)
+			txs = append(txs, e.SignTx(t, tx, 1_0000_0000, e.Validator))
+		}
+		addBlock(txs...)
+	}
+	g.junkKey = append([]byte{0x05}, bytes.Repeat([]byte{0x11}, 32)...)
 	return g
 }
 
@@ -278,71 +307,1595 @@ func scriptHashOf(tx *transaction.Transaction) []byte {
 	return hash.Hash160(tx.Script).BytesBE()
 }
 
-func TestC19Probe(t *testing.T) {
-	wf, cf := int64(7), int64(11)
-	g := newGasEnv(t, gasEnvCfg{NC: 4, NotaryOff: false, NAlpha: 0, WFee: &wf, CFee: &cf, IR: 3, AlphaIdx: []int64{0, 2, 9, -1}})
-	e := g.E
-	show := func(what string, r Result) {
-		raw := e.GetTxExecResult(t, r.TxHash)
-		var evs []string
-		for _, ev := range raw.Events {
-			evs = append(evs, fmt.Sprintf("%s:%s%v", ev.ScriptHash.StringLE()[:4], ev.Name, ev.Item))
+
+// ---------------------------------------------------------------------------
+// Operations
+
+type gasData struct {
+	Kind string `json:"kind"` // null bytes int bool array
+	B    []byte `json:"b,omitempty"`
+	I    int64  `json:"i,omitempty"`
+	T    bool   `json:"t,omitempty"`
+}
+
+func (d gasData) arg() any {
+	switch d.Kind {
+	case "bytes":
+		return append([]byte{}, d.B...)
+	case "int":
+		return d.I
+	case "bool":
+		return d.T
+	case "array":
+		return []any{int64(1)}
+	}
+	return nil
+}
+
+func (d gasData) coq(p *Pool) string {
+	switch d.Kind {
+	case "bytes":
+		return "(DBytes " + p.Ref(d.B) + ")"
+	case "int":
+		return fmt.Sprintf("(DInt %s)", zs(big.NewInt(d.I)))
+	case "bool":
+		return "(DBool " + BoolLit(d.T) + ")"
+	case "array":
+		return "DCompound"
+	}
+	return "DNull"
+}
+
+func (d gasData) String() string {
+	switch d.Kind {
+	case "bytes":
+		return "bytes:" + Hex(d.B)
+	case "int":
+		return fmt.Sprintf("int:%d", d.I)
+	case "bool":
+		return fmt.Sprintf("bool:%v", d.T)
+	}
+	if d.Kind == "" {
+		return "null"
+	}
+	return d.Kind
+}
+
+type gasOp struct {
+	Kind    string   `json:"kind"` // gasTransfer tokenTransfer tokenPay directPay neoTransfer withdraw cheque candAdd candRemove bind unbind setConfig alphabetUpdate emit verify
+	From    []byte   `json:"from,omitempty"`
+	To      []byte   `json:"to,omitempty"` // receiver / target contract / user
+	Amount  *big.Int `json:"amount,omitempty"`
+	Data    gasData  `json:"data"`
+	ID      []byte   `json:"id,omitempty"`
+	Lock    []byte   `json:"lock,omitempty"`
+	LockNil bool     `json:"lock_nil,omitempty"`
+	Key     []byte   `json:"key,omitempty"`
+	Val     []byte   `json:"val,omitempty"`
+	Keys    [][]byte `json:"keys,omitempty"`
+	Signers []string `json:"signers"` // names, besides the payer
+}
+
+func (o gasOp) String() string {
+	s := o.Kind + "("
+	if o.From != nil {
+		s += "from=" + Hex(o.From) + ","
+	}
+	if o.To != nil {
+		s += "to=" + Hex(o.To) + ","
+	}
+	if o.Amount != nil {
+		s += "amount=" + o.Amount.String() + ","
+	}
+	switch o.Kind {
+	case "gasTransfer", "tokenTransfer", "tokenPay", "directPay", "neoTransfer":
+		s += "data=" + o.Data.String() + ","
+	case "cheque":
+		s += "id=" + Hex(o.ID) + ",lock=" + Hex(o.Lock) + ","
+	case "candAdd", "candRemove":
+		s += "key=" + Hex(o.Key)[:8] + ".,"
+	case "setConfig":
+		s += "id=" + Hex(o.ID) + ",key=" + string(o.Key) + ",val=" + Hex(o.Val) + ","
+	case "alphabetUpdate", "bind", "unbind":
+		s += fmt.Sprintf("id=%s,nkeys=%d,", Hex(o.ID), len(o.Keys))
+	}
+	return s + fmt.Sprintf("signers=%v)", o.Signers)
+}
+
+type gasEv struct {
+	kind    int // as Model.Gas.ev_val
+	a, b, c []byte
+	amount  *big.Int
+	keys    [][]byte
+}
+
+type gasObs struct {
+	halt   bool
+	fault  string
+	ret    string
+	evs    []gasEv
+	bal    []*big.Int
+	cands  [][]byte
+	wfee   []byte
+	wfeeNil bool
+	cfee   []byte
+	cfeeNil bool
+	alpha  [][]byte
+	// inputs of the model read from the chain
+	wit       [][]byte
+	fsAlpha   []byte
+	height    int64
+	txhash    []byte
+	minted    *big.Int
+	entryHash []byte
+}
+
+func (g *gasEnv) readKeys(h util.Uint160, method string, args ...any) [][]byte {
+	it, err := g.Read(h, method, args...)
+	require.NoError(g.T, err)
+	var out [][]byte
+	arr, _ := it.Value().([]stackitem.Item)
+	for _, x := range arr {
+		if f, ok := x.Value().([]stackitem.Item); ok {
+			if len(f) > 0 {
+				out = append(out, ItemBytes(f[0]))
+			}
+			continue
 		}
-		t.Logf("%s: halt=%v fault=%q stack=%v events=%v", what, r.Halt, r.Fault, r.Stack, evs)
+		out = append(out, ItemBytes(x))
 	}
-	u0 := neotest.NewSingleSigner(g.users[0])
-	fund := func(to util.Uint160, amount int64, data any) Result {
-		return g.Invoke([]neotest.Signer{g.payer, e.Validator}, g.gasH, "transfer", e.Validator.ScriptHash(), to, amount, data)
+	return out
+}
+
+func (g *gasEnv) committeeKeys() [][]byte { return g.readKeys(g.neoH, "getCommittee") }
+
+func (g *gasEnv) irList() [][]byte {
+	return g.readKeys(g.E.NativeHash(g.T, nativenames.Designation), "getDesignatedByRole",
+		int64(noderoles.NeoFSAlphabet), int64(g.BC.BlockHeight()+1))
+}
+
+func (g *gasEnv) prepare(op gasOp) *transaction.Transaction {
+	sg := []neotest.Signer{g.payer}
+	for _, n := range op.Signers {
+		s, ok := g.signers[n]
+		require.True(g.T, ok, n)
+		sg = append(sg, s)
 	}
-	show("fund u0", fund(u0.ScriptHash(), 20000_0000_0000, nil))
-	dep := func(amount int64, data any) Result {
-		return g.Invoke([]neotest.Signer{g.payer, u0}, g.gasH, "transfer", u0.ScriptHash(), g.neofs, amount, data)
+	h := func(b []byte) util.Uint160 {
+		u, err := util.Uint160DecodeBytesBE(b)
+		require.NoError(g.T, err)
+		return u
 	}
-	show("deposit 5 nil", dep(5, nil))
-	show("deposit 0 nil", dep(0, nil))
-	show("deposit 9000e8", dep(9000_0000_0000, nil))
-	show("deposit 9000e8+1", dep(9000_0000_0000+1, nil))
-	show("deposit 5 empty", dep(5, []byte{}))
-	show("deposit 5 rcv20", dep(5, g.plain[0]))
-	show("deposit 5 len5", dep(5, []byte{1, 2, 3, 4, 5}))
-	show("deposit 5 marker", dep(5, gasMarker))
-	show("deposit 0 marker", dep(0, gasMarker))
-	show("deposit 5 int", dep(5, int64(0x0b57)))
-	show("deposit 5 arr", dep(5, []any{int64(1)}))
-	show("deposit 5 bool", dep(5, true))
-	show("direct call", g.Invoke([]neotest.Signer{g.payer, u0}, g.neofs, "onNEP17Payment", u0.ScriptHash(), 5, nil))
-	show("direct call marker", g.Invoke([]neotest.Signer{g.payer, u0}, g.neofs, "onNEP17Payment", u0.ScriptHash(), 5, gasMarker))
-	show("token mint", g.Invoke([]neotest.Signer{g.payer}, g.token, "mint", u0.ScriptHash(), 1000))
-	show("token transfer", g.Invoke([]neotest.Signer{g.payer, u0}, g.token, "transfer", u0.ScriptHash(), g.neofs, 5, nil))
-	show("token transfer marker", g.Invoke([]neotest.Signer{g.payer, u0}, g.token, "transfer", u0.ScriptHash(), g.neofs, 5, gasMarker))
-	show("token transfer proxy", g.Invoke([]neotest.Signer{g.payer, u0}, g.token, "transfer", u0.ScriptHash(), g.proxy, 5, nil))
-	show("gas to proxy", g.Invoke([]neotest.Signer{g.payer, u0}, g.gasH, "transfer", u0.ScriptHash(), g.proxy, 5, nil))
-	show("gas to token(no method)", g.Invoke([]neotest.Signer{g.payer, u0}, g.gasH, "transfer", u0.ScriptHash(), g.token, 5, nil))
-	show("neo to proxy", g.Invoke([]neotest.Signer{g.payer, e.Validator}, g.neoH, "transfer", e.Validator.ScriptHash(), g.proxy, 5, nil))
-	show("neo to alphabet0", g.Invoke([]neotest.Signer{g.payer, e.Validator}, g.neoH, "transfer", e.Validator.ScriptHash(), g.alphabets[0], 1000, nil))
-	show("neo to alphabet0 again", g.Invoke([]neotest.Signer{g.payer, e.Validator}, g.neoH, "transfer", e.Validator.ScriptHash(), g.alphabets[0], 1000, nil))
-	show("withdraw 3", g.Invoke([]neotest.Signer{g.payer, u0}, g.neofs, "withdraw", u0.ScriptHash(), 3))
-	show("withdraw 9001", g.Invoke([]neotest.Signer{g.payer, u0}, g.neofs, "withdraw", u0.ScriptHash(), 9001))
-	show("cheque no alpha", g.Invoke([]neotest.Signer{g.payer, u0}, g.neofs, "cheque", []byte{1}, u0.ScriptHash(), 3, []byte{9}))
-	show("cheque alpha", g.Invoke([]neotest.Signer{g.payer, g.alphaMulti}, g.neofs, "cheque", []byte{1}, u0.ScriptHash(), 3, []byte{9}))
-	show("cheque alpha to neofs", g.Invoke([]neotest.Signer{g.payer, g.alphaMulti}, g.neofs, "cheque", []byte{1}, g.neofs, 3, []byte{9}))
-	show("cheque alpha neg", g.Invoke([]neotest.Signer{g.payer, g.alphaMulti}, g.neofs, "cheque", []byte{1}, u0.ScriptHash(), -3, []byte{9}))
-	show("cheque alpha nil lock", g.Invoke([]neotest.Signer{g.payer, g.alphaMulti}, g.neofs, "cheque", []byte{1}, u0.ScriptHash(), 0, nil))
-	show("cheque committee majority", g.Invoke([]neotest.Signer{g.payer, e.Committee}, g.neofs, "cheque", []byte{1}, u0.ScriptHash(), 3, []byte{9}))
-	show("candAdd", g.Invoke([]neotest.Signer{g.payer, u0}, g.neofs, "innerRingCandidateAdd", g.users[0].PublicKey().Bytes()))
-	show("candAdd again", g.Invoke([]neotest.Signer{g.payer, u0}, g.neofs, "innerRingCandidateAdd", g.users[0].PublicKey().Bytes()))
-	for i := range g.alphabets {
-		for _, s := range []string{"C0", "C1", "C2", "C3"} {
-			show(fmt.Sprintf("emit alphabet%d by %s", i, s), g.Invoke([]neotest.Signer{g.payer, g.signers[s]}, g.alphabets[i], "emit"))
+	var lock any = op.Lock
+	if op.LockNil {
+		lock = nil
+	}
+	keys := make([]any, len(op.Keys))
+	for i, k := range op.Keys {
+		keys[i] = k
+	}
+	switch op.Kind {
+	case "gasTransfer":
+		return g.PrepareTx(sg, g.gasH, "transfer", op.From, op.To, op.Amount, op.Data.arg())
+	case "neoTransfer":
+		return g.PrepareTx(sg, g.neoH, "transfer", op.From, op.To, op.Amount, op.Data.arg())
+	case "tokenTransfer":
+		return g.PrepareTx(sg, g.token, "transfer", op.From, op.To, op.Amount, op.Data.arg())
+	case "tokenPay":
+		return g.PrepareTx(sg, g.token, "pay", op.To, op.From, op.Amount, op.Data.arg())
+	case "directPay":
+		return g.PrepareTx(sg, h(op.To), "onNEP17Payment", op.From, op.Amount, op.Data.arg())
+	case "withdraw":
+		return g.PrepareTx(sg, g.neofs, "withdraw", op.From, op.Amount)
+	case "cheque":
+		return g.PrepareTx(sg, g.neofs, "cheque", op.ID, op.To, op.Amount, lock)
+	case "candAdd":
+		return g.PrepareTx(sg, g.neofs, "innerRingCandidateAdd", op.Key)
+	case "candRemove":
+		return g.PrepareTx(sg, g.neofs, "innerRingCandidateRemove", op.Key)
+	case "bind":
+		return g.PrepareTx(sg, g.neofs, "bind", op.From, keys)
+	case "unbind":
+		return g.PrepareTx(sg, g.neofs, "unbind", op.From, keys)
+	case "setConfig":
+		return g.PrepareTx(sg, g.neofs, "setConfig", op.ID, op.Key, op.Val)
+	case "alphabetUpdate":
+		return g.PrepareTx(sg, g.neofs, "alphabetUpdate", op.ID, keys)
+	case "emit":
+		return g.PrepareTx(sg, h(op.To), "emit")
+	case "verify":
+		return g.PrepareTx(sg, h(op.To), "verify")
+	}
+	panic(op.Kind)
+}
+
+func (g *gasEnv) observeState(o *gasObs) {
+	for _, p := range g.parties {
+		o.bal = append(o.bal, g.gasOf(p))
+	}
+	o.cands = g.readKeys(g.neofs, "innerRingCandidates")
+	it, err := g.Read(g.neofs, "config", []byte("WithdrawFee"))
+	require.NoError(g.T, err)
+	_, o.wfeeNil = it.(stackitem.Null)
+	o.wfee = ItemBytes(it)
+	it, err = g.Read(g.neofs, "config", []byte("InnerRingCandidateFee"))
+	require.NoError(g.T, err)
+	_, o.cfeeNil = it.(stackitem.Null)
+	o.cfee = ItemBytes(it)
+	o.alpha = g.readKeys(g.neofs, "alphabetList")
+}
+
+func (g *gasEnv) exec(op gasOp) gasObs {
+	var o gasObs
+	// NeoFS' own multi-signature address; the call faults when a stored key is not a point
+	if it, err := g.Read(g.neofs, "alphabetAddress"); err == nil {
+		o.fsAlpha = ItemBytes(it)
+	}
+	tx := g.prepare(op)
+	o.entryHash = scriptHashOf(tx)
+	for _, s := range tx.Signers {
+		o.wit = append(o.wit, s.Account.BytesBE())
+	}
+	b := g.E.AddNewBlock(g.T, tx)
+	r := g.ResultOf(tx, b)
+	o.halt, o.fault, o.txhash, o.height = r.Halt, r.Fault, tx.Hash().BytesBE(), int64(b.Index)-1
+	switch {
+	case !r.Halt:
+		o.ret = VFault
+	case op.Kind == "gasTransfer" || op.Kind == "neoTransfer" || op.Kind == "verify":
+		require.Len(g.T, r.Stack, 1)
+		bv, err := r.Stack[0].TryBool()
+		require.NoError(g.T, err)
+		o.ret = VBool(bv)
+	default:
+		o.ret = VNull
+	}
+	// GAS generated by NEO for the target of the op: read back, also from a faulted log
+	o.minted = new(big.Int)
+	raw := g.E.GetTxExecResult(g.T, tx.Hash())
+	vh := g.E.Validator.ScriptHash().BytesBE()
+	for _, ev := range raw.Events {
+		if ev.ScriptHash != g.gasH || ev.Name != "Transfer" {
+			continue
+		}
+		items := ev.Item.Value().([]stackitem.Item)
+		if _, isNull := items[0].(stackitem.Null); isNull && bytes.Equal(ItemBytes(items[1]), op.To) {
+			o.minted.Add(o.minted, ItemInt(items[2]))
 		}
 	}
-	it, err := g.Read(g.neoH, "getCommittee")
-	require.NoError(t, err)
-	t.Logf("committee: %v", it)
-	for i, k := range g.committee {
-		t.Logf("C%d = %x", i, k.PublicKey().Bytes())
+	for _, ev := range r.Events {
+		items := ev.Item.Value().([]stackitem.Item)
+		switch {
+		case ev.ScriptHash == g.gasH && ev.Name == "Transfer":
+			if _, isNull := items[0].(stackitem.Null); isNull && bytes.Equal(ItemBytes(items[1]), vh) {
+				continue // GAS generated for the NEO holder who sent NEO (not a party)
+			}
+			o.evs = append(o.evs, gasEv{kind: 0, a: ItemBytes(items[0]), b: ItemBytes(items[1]), amount: ItemInt(items[2])})
+		case ev.ScriptHash != g.neofs:
+		case ev.Name == "Deposit":
+			o.evs = append(o.evs, gasEv{kind: 1, a: ItemBytes(items[0]), amount: ItemInt(items[1]), b: ItemBytes(items[2]), c: ItemBytes(items[3])})
+		case ev.Name == "Withdraw":
+			o.evs = append(o.evs, gasEv{kind: 2, a: ItemBytes(items[0]), amount: ItemInt(items[1]), c: ItemBytes(items[2])})
+		case ev.Name == "Cheque":
+			o.evs = append(o.evs, gasEv{kind: 3, a: ItemBytes(items[0]), b: ItemBytes(items[1]), amount: ItemInt(items[2]), c: ItemBytes(items[3])})
+		case ev.Name == "Bind" || ev.Name == "Unbind" || ev.Name == "AlphabetUpdate":
+			n := gasEv{kind: map[string]int{"Bind": 4, "Unbind": 5, "AlphabetUpdate": 6}[ev.Name], a: ItemBytes(items[0])}
+			for _, k := range items[1].Value().([]stackitem.Item) {
+				n.keys = append(n.keys, ItemBytes(k))
+			}
+			o.evs = append(o.evs, n)
+		case ev.Name == "SetConfig":
+			o.evs = append(o.evs, gasEv{kind: 7, a: ItemBytes(items[0]), b: ItemBytes(items[1]), c: ItemBytes(items[2])})
+		default:
+			o.evs = append(o.evs, gasEv{kind: 99})
+		}
 	}
-	for i, p := range g.parties {
-		t.Logf("%s %x gas=%v", g.partyNames[i], p, g.gasOf(p))
+	g.observeState(&o)
+	return o
+}
+
+// ---------------------------------------------------------------------------
+// Coq output
+
+func zs(z *big.Int) string {
+	if z.Sign() < 0 {
+		return "(" + z.String() + ")"
 	}
+	return z.String()
+}
+
+func refList(p *Pool, bs [][]byte) string {
+	xs := make([]string, len(bs))
+	for i, b := range bs {
+		xs[i] = p.Ref(b)
+	}
+	return ListLit(xs)
+}
+
+func vbytesList(p *Pool, bs [][]byte) string {
+	xs := make([]string, len(bs))
+	for i, b := range bs {
+		xs[i] = VBytesRef(p.Ref(b))
+	}
+	return VList(xs)
+}
+
+func (g *gasEnv) coqEnv(p *Pool) string {
+	var sa []string
+	addKey := func(a *wallet.Account) {
+		sa = append(sa, fmt.Sprintf("(%s, %s)", p.Ref(a.PublicKey().Bytes()), p.Ref(a.ScriptHash().BytesBE())))
+	}
+	for _, a := range g.users {
+		addKey(a)
+	}
+	for _, a := range g.alpha {
+		addKey(a)
+	}
+	for _, a := range g.irKeys {
+		addKey(a)
+	}
+	for _, a := range g.committee {
+		addKey(a)
+	}
+	kinds := []string{
+		fmt.Sprintf("(%s, KProcessing)", p.Ref(g.processing.BytesBE())),
+		fmt.Sprintf("(%s, KProxy)", p.Ref(g.proxy.BytesBE())),
+		fmt.Sprintf("(%s, KAccept)", p.Ref(g.accept.BytesBE())),
+		fmt.Sprintf("(%s, KNoMethod)", p.Ref(g.token.BytesBE())),
+	}
+	for i, a := range g.alphabets {
+		kinds = append(kinds, fmt.Sprintf("(%s, KAlphabet %s %s)", p.Ref(a.BytesBE()), zs(big.NewInt(g.cfg.AlphaIdx[i])), p.Ref(g.proxyAddr.BytesBE())))
+	}
+	return fmt.Sprintf("(mkEnv %s %s %s %s %s)", p.Ref(g.gasH.BytesBE()), p.Ref(g.neoH.BytesBE()), p.Ref(g.neofs.BytesBE()), ListLit(sa), ListLit(kinds))
+}
+
+func (g *gasEnv) coqInit(p *Pool, o gasObs) string {
+	var bl []string
+	for i, a := range g.parties {
+		if o.bal[i].Sign() != 0 {
+			bl = append(bl, fmt.Sprintf("(%s, %s)", p.Ref(a), zs(o.bal[i])))
+		}
+	}
+	var cf []string
+	if !o.wfeeNil {
+		cf = append(cf, fmt.Sprintf("(withdraw_fee_key, %s)", p.Ref(o.wfee)))
+	}
+	if !o.cfeeNil {
+		cf = append(cf, fmt.Sprintf("(candidate_fee_key, %s)", p.Ref(o.cfee)))
+	}
+	return fmt.Sprintf("(winit %s %s %s %s %s)", ListLit(bl), BoolLit(g.cfg.NotaryOff), p.Ref(g.processing.BytesBE()), refList(p, o.alpha), ListLit(cf))
+}
+
+func (g *gasEnv) coqOp(p *Pool, op gasOp, o gasObs) string {
+	ctx := fmt.Sprintf("cx %s %s %d %s", refList(p, o.wit), p.Ref(o.fsAlpha), o.height, p.Ref(o.txhash))
+	var s string
+	switch op.Kind {
+	case "gasTransfer":
+		s = fmt.Sprintf("OGasTransfer %s %s %s %s", p.Ref(op.From), p.Ref(op.To), zs(op.Amount), op.Data.coq(p))
+	case "tokenTransfer", "tokenPay":
+		s = fmt.Sprintf("OTokenPay %s %s %s %s %s", p.Ref(g.token.BytesBE()), p.Ref(op.To), p.Ref(op.From), zs(op.Amount), op.Data.coq(p))
+	case "directPay":
+		s = fmt.Sprintf("OTokenPay %s %s %s %s %s", p.Ref(o.entryHash), p.Ref(op.To), p.Ref(op.From), zs(op.Amount), op.Data.coq(p))
+	case "neoTransfer":
+		s = fmt.Sprintf("ONeoTransfer %s %s %s %s %s", p.Ref(op.From), p.Ref(op.To), zs(op.Amount), op.Data.coq(p), zs(o.minted))
+	case "withdraw":
+		s = fmt.Sprintf("OWithdraw %s %s", p.Ref(op.From), zs(op.Amount))
+	case "cheque":
+		s = fmt.Sprintf("OCheque %s %s %s %s", p.Ref(op.ID), p.Ref(op.To), zs(op.Amount), p.Ref(op.Lock))
+	case "candAdd":
+		s = "OCandAdd " + p.Ref(op.Key)
+	case "candRemove":
+		s = "OCandRemove " + p.Ref(op.Key)
+	case "bind":
+		s = fmt.Sprintf("OBind %s %s", p.Ref(op.From), refList(p, op.Keys))
+	case "unbind":
+		s = fmt.Sprintf("OUnbind %s %s", p.Ref(op.From), refList(p, op.Keys))
+	case "setConfig":
+		s = fmt.Sprintf("OSetConfig %s %s %s", p.Ref(op.ID), p.Ref(op.Key), p.Ref(op.Val))
+	case "alphabetUpdate":
+		s = fmt.Sprintf("OAlphabetUpdate %s %s", p.Ref(op.ID), refList(p, op.Keys))
+	case "emit":
+		s = fmt.Sprintf("OEmit %s %s", p.Ref(op.To), zs(o.minted))
+	case "verify":
+		s = "OVerify " + p.Ref(op.To)
+	default:
+		panic(op.Kind)
+	}
+	return fmt.Sprintf("(%s, %s)", ctx, s)
+}
+
+func vi(z *big.Int) string { return "VInt " + zs(z) }
+
+func (g *gasEnv) coqObs(p *Pool, prev, o gasObs) string {
+	var evs []string
+	for _, n := range o.evs {
+		k := "VInt " + fmt.Sprint(n.kind)
+		switch n.kind {
+		case 0:
+			evs = append(evs, VList([]string{k, VBytesRef(p.Ref(n.a)), VBytesRef(p.Ref(n.b)), vi(n.amount)}))
+		case 1:
+			evs = append(evs, VList([]string{k, VBytesRef(p.Ref(n.a)), vi(n.amount), VBytesRef(p.Ref(n.b)), VBytesRef(p.Ref(n.c))}))
+		case 2:
+			evs = append(evs, VList([]string{k, VBytesRef(p.Ref(n.a)), vi(n.amount), VBytesRef(p.Ref(n.c))}))
+		case 3:
+			evs = append(evs, VList([]string{k, VBytesRef(p.Ref(n.a)), VBytesRef(p.Ref(n.b)), vi(n.amount), VBytesRef(p.Ref(n.c))}))
+		case 4, 5, 6:
+			evs = append(evs, VList([]string{k, VBytesRef(p.Ref(n.a)), vbytesList(p, n.keys)}))
+		case 7:
+			evs = append(evs, VList([]string{k, VBytesRef(p.Ref(n.a)), VBytesRef(p.Ref(n.b)), VBytesRef(p.Ref(n.c))}))
+		default:
+			evs = append(evs, "VFault")
+		}
+	}
+	var ch []string
+	for i := range o.bal {
+		if o.bal[i].Cmp(prev.bal[i]) != 0 {
+			ch = append(ch, VList([]string{fmt.Sprintf("VInt %d", i), vi(o.bal[i])}))
+		}
+	}
+	cfgv := func(isNil bool, b []byte) string {
+		if isNil {
+			return VNull
+		}
+		return VBytesRef(p.Ref(b))
+	}
+	return VList([]string{o.ret, VList(evs), VList(ch), vbytesList(p, o.cands), cfgv(o.wfeeNil, o.wfee), cfgv(o.cfeeNil, o.cfee), vbytesList(p, o.alpha)})
+}
+
+// ---------------------------------------------------------------------------
+// Generator
+
+var gasMax = big.NewInt(9000_0000_0000)
+
+func bn(i int64) *big.Int { return big.NewInt(i) }
+
+type gasGen struct {
+	r    *rand.Rand
+	g    *gasEnv
+	prev gasObs
+}
+
+func (gg *gasGen) pick(xs ...[]byte) []byte { return xs[gg.r.Intn(len(xs))] }
+
+func (gg *gasGen) userIdx() int { return gg.r.Intn(4) }
+
+func (gg *gasGen) uname(i int) string { return fmt.Sprintf("U%d", i) }
+
+func (gg *gasGen) uhash(i int) []byte { return gg.g.users[i].ScriptHash().BytesBE() }
+
+func (gg *gasGen) balOf(a []byte) *big.Int {
+	for i, p := range gg.g.parties {
+		if bytes.Equal(p, a) {
+			return gg.prev.bal[i]
+		}
+	}
+	return new(big.Int)
+}
+
+func (gg *gasGen) depositAmount(bal *big.Int) *big.Int {
+	r := gg.r
+	switch r.Intn(16) {
+	case 0:
+		return bn(0)
+	case 1:
+		return bn(-1)
+	case 2:
+		return bn(1)
+	case 3:
+		return bn(2)
+	case 4:
+		return new(big.Int).Sub(gasMax, bn(1))
+	case 5, 6:
+		return new(big.Int).Set(gasMax)
+	case 7:
+		return new(big.Int).Add(gasMax, bn(1))
+	case 8:
+		return new(big.Int).Set(bal)
+	case 9:
+		return new(big.Int).Add(bal, bn(1))
+	case 10:
+		return new(big.Int).Mul(gasMax, bn(3))
+	default:
+		return bn(1 + r.Int63n(5000_0000_0000))
+	}
+}
+
+func (gg *gasGen) depositData() gasData {
+	r := gg.r
+	g := gg.g
+	switch r.Intn(20) {
+	case 0, 1, 2, 3:
+		return gasData{Kind: "null"}
+	case 4, 5:
+		return gasData{Kind: "bytes", B: []byte{}}
+	case 6, 7, 8:
+		return gasData{Kind: "bytes", B: gg.pick(g.plain[0], g.plain[1], gg.uhash(1), gg.uhash(3), g.neofs.BytesBE())}
+	case 9:
+		return gasData{Kind: "bytes", B: []byte{1, 2, 3, 4, 5}}
+	case 10:
+		return gasData{Kind: "bytes", B: g.plain[0][:19]}
+	case 11:
+		return gasData{Kind: "bytes", B: append(append([]byte{}, g.plain[0]...), 7)}
+	case 12, 13:
+		return gasData{Kind: "bytes", B: gasMarker}
+	case 14:
+		return gasData{Kind: "int", I: 0x0b57} // the marker as an integer
+	case 15:
+		return gasData{Kind: "int", I: int64(r.Intn(3))} // 0 -> empty bytes
+	case 16:
+		return gasData{Kind: "bool", T: r.Intn(2) == 0}
+	case 17:
+		return gasData{Kind: "array"}
+	case 18:
+		return gasData{Kind: "bytes", B: g.users[0].PublicKey().Bytes()}
+	default:
+		return gasData{Kind: "bytes", B: []byte{0x57}}
+	}
+}
+
+func (gg *gasGen) anyTarget() []byte {
+	g := gg.g
+	xs := [][]byte{g.neofs.BytesBE(), g.processing.BytesBE(), g.proxy.BytesBE(), g.accept.BytesBE(), g.token.BytesBE(), g.plain[0], gg.uhash(3)}
+	for _, a := range g.alphabets {
+		xs = append(xs, a.BytesBE())
+	}
+	return xs[gg.r.Intn(len(xs))]
+}
+
+func (gg *gasGen) contractTarget() []byte {
+	g := gg.g
+	xs := [][]byte{g.neofs.BytesBE(), g.neofs.BytesBE(), g.processing.BytesBE(), g.proxy.BytesBE(), g.accept.BytesBE()}
+	for _, a := range g.alphabets {
+		xs = append(xs, a.BytesBE())
+	}
+	return xs[gg.r.Intn(len(xs))]
+}
+
+func (gg *gasGen) alphaSigners() []string {
+	r := gg.r
+	g := gg.g
+	if !g.cfg.NotaryOff {
+		switch r.Intn(8) {
+		case 0:
+			return []string{gg.uname(r.Intn(3))}
+		case 1:
+			return []string{"C0"}
+		default:
+			return []string{"alpha"}
+		}
+	}
+	if r.Intn(8) == 0 {
+		return []string{gg.uname(r.Intn(3))}
+	}
+	return []string{fmt.Sprintf("A%d", r.Intn(len(g.alpha)))}
+}
+
+func feeBytes(r *rand.Rand) []byte {
+	switch r.Intn(7) {
+	case 0:
+		return []byte{}
+	case 1:
+		return []byte{1}
+	case 2:
+		return le(1_0000_0000)
+	case 3:
+		return []byte{0xff} // -1
+	case 4:
+		return bytes.Repeat([]byte{1}, 33) // not an integer
+	default:
+		return le(int64(1 + r.Intn(1000)))
+	}
+}
+
+func (gg *gasGen) next(step int) gasOp {
+	r := gg.r
+	g := gg.g
+	w := r.Intn(100)
+	switch {
+	case w < 30: // deposit
+		u := r.Intn(3)
+		op := gasOp{Kind: "gasTransfer", From: gg.uhash(u), To: g.neofs.BytesBE(), Amount: gg.depositAmount(gg.balOf(gg.uhash(u))), Data: gg.depositData(), Signers: []string{gg.uname(u)}}
+		if r.Intn(12) == 0 {
+			op.Signers = []string{gg.uname((u + 1) % 3)} // not the owner
+		}
+		return op
+	case w < 38: // GAS to the other contracts and accounts
+		u := r.Intn(3)
+		am := bn(int64(r.Intn(4)) * int64(1+r.Intn(100000)))
+		return gasOp{Kind: "gasTransfer", From: gg.uhash(u), To: gg.anyTarget(), Amount: am, Data: gg.depositData(), Signers: []string{gg.uname(u)}}
+	case w < 46: // something that is not GAS pays
+		u := r.Intn(3)
+		d := gasData{Kind: "null"}
+		if r.Intn(3) == 0 {
+			d = gg.depositData()
+		}
+		kind := []string{"tokenTransfer", "tokenPay", "directPay"}[r.Intn(3)]
+		am := bn(int64(1 + r.Intn(1000)))
+		if kind != "tokenTransfer" && r.Intn(3) == 0 {
+			am = gg.depositAmount(bn(1000))
+		}
+		to := gg.contractTarget()
+		if kind == "tokenPay" && r.Intn(6) == 0 {
+			to = g.plain[0]
+		}
+		return gasOp{Kind: kind, From: gg.uhash(u), To: to, Amount: am, Data: d, Signers: []string{gg.uname(u)}}
+	case w < 52: // NEO
+		d := gasData{Kind: "null"}
+		if r.Intn(4) == 0 {
+			d = gasData{Kind: "bytes", B: gasMarker}
+		}
+		to := gg.contractTarget()
+		if len(g.alphabets) > 0 && r.Intn(2) == 0 {
+			to = g.alphabets[r.Intn(len(g.alphabets))].BytesBE()
+		}
+		return gasOp{Kind: "neoTransfer", From: g.E.Validator.ScriptHash().BytesBE(), To: to, Amount: bn(int64(r.Intn(3)) * int64(1+r.Intn(2000000))), Data: d, Signers: []string{"validator"}}
+	case w < 64: // withdraw
+		u := gg.userIdx()
+		var am *big.Int
+		switch r.Intn(8) {
+		case 0:
+			am = bn(0)
+		case 1:
+			am = bn(-1)
+		case 2:
+			am = bn(9000)
+		case 3:
+			am = bn(9001)
+		default:
+			am = bn(int64(r.Intn(9000)))
+		}
+		op := gasOp{Kind: "withdraw", From: gg.uhash(u), Amount: am, Signers: []string{gg.uname(u)}}
+		if r.Intn(10) == 0 {
+			op.Signers = []string{gg.uname((u + 1) % 4)}
+		}
+		if r.Intn(25) == 0 {
+			op.From = g.users[u].PublicKey().Bytes()
+		}
+		return op
+	case w < 76: // cheque
+		nb := gg.balOf(g.neofs.BytesBE())
+		var am *big.Int
+		switch r.Intn(8) {
+		case 0:
+			am = bn(0)
+		case 1:
+			am = bn(-1)
+		case 2:
+			am = new(big.Int).Set(nb)
+		case 3:
+			am = new(big.Int).Add(nb, bn(1))
+		default:
+			if nb.Sign() > 0 {
+				am = new(big.Int).Rand(r, nb)
+			} else {
+				am = bn(int64(r.Intn(5)))
+			}
+		}
+		to := gg.pick(gg.uhash(0), gg.uhash(1), gg.uhash(3), g.plain[0], g.plain[1], g.neofs.BytesBE(), g.proxy.BytesBE(), g.accept.BytesBE(), g.token.BytesBE(), g.processing.BytesBE())
+		op := gasOp{Kind: "cheque", ID: []byte{byte(r.Intn(3) + 1)}, To: to, Amount: am, Lock: []byte{byte(step), 9}, Signers: gg.alphaSigners()}
+		if r.Intn(8) == 0 {
+			op.Lock, op.LockNil = nil, true
+		}
+		return op
+	case w < 84: // candidates
+		u := gg.userIdx()
+		key := g.users[u].PublicKey().Bytes()
+		if r.Intn(12) == 0 {
+			key = g.junkKey
+		}
+		if r.Intn(3) != 0 {
+			op := gasOp{Kind: "candAdd", Key: key, Signers: []string{gg.uname(u)}}
+			if r.Intn(10) == 0 {
+				op.Signers = []string{gg.uname((u + 1) % 4)}
+			}
+			return op
+		}
+		sg := []string{gg.uname(u)}
+		switch r.Intn(4) {
+		case 0:
+			sg = []string{"fsalpha"}
+		case 1:
+			sg = gg.alphaSigners()
+		}
+		return gasOp{Kind: "candRemove", Key: key, Signers: sg}
+	case w < 87:
+		u := gg.userIdx()
+		ks := [][]byte{g.users[0].PublicKey().Bytes()}
+		if r.Intn(4) == 0 {
+			ks = append(ks, g.users[1].PublicKey().Bytes()[:32])
+		}
+		kind := "bind"
+		if r.Intn(2) == 0 {
+			kind = "unbind"
+		}
+		return gasOp{Kind: kind, From: gg.uhash(u), Keys: ks, Signers: []string{gg.uname(u)}}
+	case w < 91:
+		key := []byte("WithdrawFee")
+		if r.Intn(2) == 0 {
+			key = []byte("InnerRingCandidateFee")
+		}
+		return gasOp{Kind: "setConfig", ID: []byte{0x10, byte(r.Intn(2))}, Key: key, Val: feeBytes(r), Signers: gg.alphaSigners()}
+	case w < 93:
+		n := 1 + r.Intn(3)
+		var ks [][]byte
+		for i := 0; i < n; i++ {
+			if len(g.alpha) > 0 {
+				ks = append(ks, g.alpha[r.Intn(len(g.alpha))].PublicKey().Bytes())
+			} else {
+				ks = append(ks, g.users[i].PublicKey().Bytes())
+			}
+		}
+		if r.Intn(6) == 0 {
+			ks = append(ks, g.junkKey)
+		}
+		return gasOp{Kind: "alphabetUpdate", ID: []byte{0x20, byte(r.Intn(2))}, Keys: ks, Signers: gg.alphaSigners()}
+	case w < 98 && len(g.alphabets) > 0: // emit
+		ai := r.Intn(len(g.alphabets))
+		sg := []string{fmt.Sprintf("C%d", r.Intn(g.cfg.NC))}
+		if r.Intn(4) != 0 {
+			// the right committee member, if there is one
+			idx := g.cfg.AlphaIdx[ai]
+			cm := g.committeeKeys()
+			if idx >= 0 && idx < int64(len(cm)) {
+				for i, k := range g.committee {
+					if bytes.Equal(k.PublicKey().Bytes(), cm[idx]) {
+						sg = []string{fmt.Sprintf("C%d", i)}
+					}
+				}
+			}
+		}
+		if r.Intn(10) == 0 {
+			sg = []string{gg.uname(0)}
+		}
+		return gasOp{Kind: "emit", To: g.alphabets[ai].BytesBE(), Signers: sg}
+	default:
+		to := gg.pick(g.proxy.BytesBE(), g.processing.BytesBE())
+		if len(g.alphabets) > 0 && r.Intn(3) == 0 {
+			to = g.alphabets[0].BytesBE()
+		}
+		sg := [][]string{{"alpha"}, {"committee"}, {"fsalpha"}, {"U0"}}[r.Intn(4)]
+		return gasOp{Kind: "verify", To: to, Signers: sg}
+	}
+}
+
+func gasRandomCfg(r *rand.Rand, thorough bool) gasEnvCfg {
+	fee := func() *int64 {
+		var v int64
+		switch r.Intn(8) {
+		case 0:
+			return nil
+		case 1:
+			v = 0
+		case 2:
+			v = 1
+		case 3:
+			v = 1_0000_0000
+		case 4:
+			v = -1
+		default:
+			v = int64(1 + r.Intn(100000))
+		}
+		return &v
+	}
+	c := gasEnvCfg{NC: 1, WFee: fee(), CFee: fee()}
+	switch r.Intn(4) {
+	case 0:
+		c.NC = 4
+	case 1:
+		if thorough {
+			c.NC = []int{2, 3, 5, 7}[r.Intn(4)]
+		}
+	}
+	c.NotaryOff = r.Intn(5) < 2
+	if c.NotaryOff {
+		c.NAlpha = 1 + r.Intn(4)
+		if r.Intn(6) == 0 {
+			c.NAlpha = 7
+		}
+	} else if r.Intn(3) == 0 {
+		c.NAlpha = 1 + r.Intn(3)
+	}
+	c.IR = r.Intn(8)
+	na := 1 + r.Intn(2)
+	for i := 0; i < na; i++ {
+		idx := int64(r.Intn(c.NC))
+		switch r.Intn(10) {
+		case 0:
+			idx = int64(c.NC)
+		case 1:
+			idx = -1
+		}
+		c.AlphaIdx = append(c.AlphaIdx, idx)
+	}
+	switch r.Intn(6) {
+	case 0:
+		c.ProxyKind = 1
+	case 1:
+		c.ProxyKind = 2
+	}
+	return c
+}
+
+// ---------------------------------------------------------------------------
+// Corpus: hand-written boundary histories, always run first.
+
+type gasCorpusEntry struct {
+	name string
+	cfg  gasEnvCfg
+	ops  func(g *gasEnv) []gasOp
+}
+
+func i64p(v int64) *int64 { return &v }
+
+func gasCorpus(thorough bool) []gasCorpusEntry {
+	null := gasData{Kind: "null"}
+	by := func(b []byte) gasData { return gasData{Kind: "bytes", B: b} }
+	u := func(g *gasEnv, i int) []byte { return g.users[i].ScriptHash().BytesBE() }
+	var out []gasCorpusEntry
+	// deposits at the boundaries, all data shapes
+	out = append(out, gasCorpusEntry{"deposit-boundaries", gasEnvCfg{NC: 1, WFee: i64p(7), CFee: i64p(11), IR: 1, AlphaIdx: []int64{0}},
+		func(g *gasEnv) []gasOp {
+			N := g.neofs.BytesBE()
+			dep := func(a *big.Int, d gasData) gasOp {
+				return gasOp{Kind: "gasTransfer", From: u(g, 0), To: N, Amount: a, Data: d, Signers: []string{"U0"}}
+			}
+			mx := gasMax
+			return []gasOp{
+				dep(bn(0), null), dep(bn(1), null), dep(bn(-1), null),
+				dep(new(big.Int).Sub(mx, bn(1)), null), dep(mx, null), dep(new(big.Int).Add(mx, bn(1)), null),
+				dep(bn(5), by([]byte{})), dep(bn(5), by(g.plain[0])), dep(bn(5), by(g.plain[0][:19])),
+				dep(bn(5), by(append(append([]byte{}, g.plain[0]...), 1))), dep(bn(5), by([]byte{1})),
+				dep(bn(5), by(gasMarker)), dep(bn(0), by(gasMarker)), dep(new(big.Int).Add(mx, bn(1)), by(gasMarker)),
+				dep(bn(5), gasData{Kind: "int", I: 0x0b57}), dep(bn(5), gasData{Kind: "int", I: 0}), dep(bn(5), gasData{Kind: "int", I: 5}),
+				dep(bn(5), gasData{Kind: "bool", T: true}), dep(bn(5), gasData{Kind: "array"}),
+				{Kind: "gasTransfer", From: u(g, 0), To: N, Amount: bn(5), Data: null, Signers: []string{"U1"}},
+				{Kind: "gasTransfer", From: u(g, 3), To: N, Amount: bn(5), Data: null, Signers: []string{"U3"}},
+				{Kind: "tokenTransfer", From: u(g, 0), To: N, Amount: bn(5), Data: null, Signers: []string{"U0"}},
+				{Kind: "tokenTransfer", From: u(g, 0), To: N, Amount: bn(5), Data: by(gasMarker), Signers: []string{"U0"}},
+				{Kind: "tokenPay", From: u(g, 0), To: N, Amount: bn(5), Data: null, Signers: []string{"U0"}},
+				{Kind: "directPay", From: u(g, 0), To: N, Amount: bn(5), Data: null, Signers: []string{"U0"}},
+				{Kind: "directPay", From: u(g, 0), To: N, Amount: bn(5), Data: by(gasMarker), Signers: []string{"U0"}},
+				{Kind: "neoTransfer", From: g.E.Validator.ScriptHash().BytesBE(), To: N, Amount: bn(10), Data: null, Signers: []string{"validator"}},
+				{Kind: "neoTransfer", From: g.E.Validator.ScriptHash().BytesBE(), To: N, Amount: bn(100000), Data: by(gasMarker), Signers: []string{"validator"}},
+				// NeoFS now holds NEO: the next NEO transfer to it makes native NEO mint GAS to it (Deposit from Null)
+				{Kind: "neoTransfer", From: g.E.Validator.ScriptHash().BytesBE(), To: N, Amount: bn(0), Data: by(gasMarker), Signers: []string{"validator"}},
+			}
+		}})
+	// accept-only of proxy, processing, alphabet
+	out = append(out, gasCorpusEntry{"accept-only", gasEnvCfg{NC: 1, WFee: i64p(7), CFee: i64p(11), IR: 1, AlphaIdx: []int64{0}},
+		func(g *gasEnv) []gasOp {
+			var ops []gasOp
+			v := g.E.Validator.ScriptHash().BytesBE()
+			for _, t := range [][]byte{g.proxy.BytesBE(), g.processing.BytesBE(), g.alphabets[0].BytesBE(), g.accept.BytesBE(), g.token.BytesBE(), g.plain[0]} {
+				ops = append(ops,
+					gasOp{Kind: "gasTransfer", From: u(g, 0), To: t, Amount: bn(3), Data: null, Signers: []string{"U0"}},
+					gasOp{Kind: "gasTransfer", From: u(g, 0), To: t, Amount: bn(0), Data: by(gasMarker), Signers: []string{"U0"}},
+					gasOp{Kind: "tokenPay", From: u(g, 0), To: t, Amount: bn(3), Data: null, Signers: []string{"U0"}},
+					gasOp{Kind: "tokenPay", From: u(g, 0), To: t, Amount: bn(3), Data: by(gasMarker), Signers: []string{"U0"}},
+					gasOp{Kind: "neoTransfer", From: v, To: t, Amount: bn(3), Data: null, Signers: []string{"validator"}})
+				if len(t) == 20 && !bytes.Equal(t, g.plain[0]) {
+					ops = append(ops, gasOp{Kind: "tokenTransfer", From: u(g, 0), To: t, Amount: bn(3), Data: null, Signers: []string{"U0"}},
+						gasOp{Kind: "directPay", From: u(g, 0), To: t, Amount: bn(3), Data: null, Signers: []string{"U0"}})
+				}
+			}
+			for _, t := range [][]byte{g.proxy.BytesBE(), g.processing.BytesBE(), g.alphabets[0].BytesBE()} {
+				for _, s := range []string{"alpha", "committee", "fsalpha", "U0"} {
+					ops = append(ops, gasOp{Kind: "verify", To: t, Signers: []string{s}})
+				}
+			}
+			return ops
+		}})
+	// withdraw / cheque / candidate in both modes, several alphabet sizes
+	lifecycle := func(g *gasEnv) []gasOp {
+		N := g.neofs.BytesBE()
+		al := []string{"alpha"}
+		var al2 []string
+		if g.cfg.NotaryOff {
+			al = []string{"A0"}
+			al2 = []string{fmt.Sprintf("A%d", len(g.alpha)-1)}
+		}
+		ops := []gasOp{
+			{Kind: "gasTransfer", From: u(g, 0), To: N, Amount: bn(1000_0000_0000), Data: null, Signers: []string{"U0"}},
+			{Kind: "withdraw", From: u(g, 0), Amount: bn(0), Signers: []string{"U0"}},
+			{Kind: "withdraw", From: u(g, 0), Amount: bn(9000), Signers: []string{"U0"}},
+			{Kind: "withdraw", From: u(g, 0), Amount: bn(9001), Signers: []string{"U0"}},
+			{Kind: "withdraw", From: u(g, 0), Amount: bn(-1), Signers: []string{"U0"}},
+			{Kind: "withdraw", From: u(g, 0), Amount: bn(5), Signers: []string{"U1"}},
+			{Kind: "withdraw", From: u(g, 3), Amount: bn(5), Signers: []string{"U3"}}, // no GAS for the fee
+			{Kind: "withdraw", From: g.users[0].PublicKey().Bytes(), Amount: bn(5), Signers: []string{"U0"}},
+			{Kind: "candAdd", Key: g.users[1].PublicKey().Bytes(), Signers: []string{"U1"}},
+			{Kind: "candAdd", Key: g.users[1].PublicKey().Bytes(), Signers: []string{"U1"}},
+			{Kind: "candAdd", Key: g.users[3].PublicKey().Bytes(), Signers: []string{"U3"}}, // cannot pay
+			{Kind: "candAdd", Key: g.users[2].PublicKey().Bytes(), Signers: []string{"U1"}},
+			{Kind: "candAdd", Key: g.junkKey, Signers: []string{"U1"}},
+			{Kind: "candAdd", Key: u(g, 2), Signers: []string{"U2"}}, // a script hash instead of a key
+			{Kind: "cheque", ID: []byte{1}, To: u(g, 3), Amount: bn(100), Lock: []byte{7}, Signers: []string{"U0"}},
+			{Kind: "cheque", ID: []byte{1}, To: u(g, 3), Amount: bn(100), Lock: []byte{7}, Signers: al},
+		}
+		// remaining votes in notary-disabled mode
+		if g.cfg.NotaryOff {
+			th := len(g.alpha)*2/3 + 1
+			for i := 1; i < th; i++ {
+				ops = append(ops, gasOp{Kind: "cheque", ID: []byte{1}, To: u(g, 3), Amount: bn(100), Lock: []byte{7}, Signers: []string{fmt.Sprintf("A%d", i)}})
+			}
+			ops = append(ops, gasOp{Kind: "cheque", ID: []byte{1}, To: u(g, 3), Amount: bn(100), Lock: []byte{7}, Signers: al2})
+		}
+		ops = append(ops,
+			gasOp{Kind: "cheque", ID: []byte{2}, To: N, Amount: bn(50), Lock: []byte{8}, Signers: al},
+			gasOp{Kind: "cheque", ID: []byte{3}, To: u(g, 3), Amount: bn(-1), Lock: []byte{8}, Signers: al},
+			gasOp{Kind: "cheque", ID: []byte{4}, To: u(g, 3), Amount: bn(0), LockNil: true, Signers: al},
+			gasOp{Kind: "cheque", ID: []byte{5}, To: u(g, 3), Amount: bn(2000_0000_0000), Lock: []byte{8}, Signers: al},
+			gasOp{Kind: "cheque", ID: []byte{6}, To: g.token.BytesBE(), Amount: bn(1), Lock: []byte{8}, Signers: al},
+			gasOp{Kind: "cheque", ID: []byte{7}, To: g.proxy.BytesBE(), Amount: bn(1), Lock: []byte{8}, Signers: al},
+			gasOp{Kind: "candRemove", Key: g.users[1].PublicKey().Bytes(), Signers: []string{"U2"}},
+			gasOp{Kind: "candRemove", Key: g.users[1].PublicKey().Bytes(), Signers: []string{"U1"}},
+			gasOp{Kind: "setConfig", ID: []byte{9}, Key: []byte("WithdrawFee"), Val: le(1_0000_0000), Signers: al},
+			gasOp{Kind: "withdraw", From: u(g, 0), Amount: bn(1), Signers: []string{"U0"}},
+			gasOp{Kind: "bind", From: u(g, 0), Keys: [][]byte{g.users[0].PublicKey().Bytes()}, Signers: []string{"U0"}},
+			gasOp{Kind: "unbind", From: u(g, 0), Keys: [][]byte{g.users[0].PublicKey().Bytes()[:32]}, Signers: []string{"U0"}},
+		)
+		return ops
+	}
+	out = append(out, gasCorpusEntry{"lifecycle-notary", gasEnvCfg{NC: 1, WFee: i64p(7), CFee: i64p(11), IR: 1, AlphaIdx: []int64{0}}, lifecycle})
+	out = append(out, gasCorpusEntry{"lifecycle-notary-committee4", gasEnvCfg{NC: 4, NAlpha: 2, WFee: i64p(1_0000_0000), CFee: i64p(0), IR: 2, AlphaIdx: []int64{3}}, lifecycle})
+	alphaSizes := []int{1, 4}
+	if thorough {
+		alphaSizes = []int{1, 2, 3, 4, 5, 6, 7}
+	}
+	for _, na := range alphaSizes {
+		out = append(out, gasCorpusEntry{fmt.Sprintf("lifecycle-nonotary-%d", na), gasEnvCfg{NC: 1, NotaryOff: true, NAlpha: na, WFee: i64p(13), CFee: i64p(100), IR: 1, AlphaIdx: []int64{0}}, lifecycle})
+	}
+	// observation: without Notary the ballot of a cheque is keyed by id alone,
+	// the invocation completing the votes decides payee and amount
+	out = append(out, gasCorpusEntry{"cheque-id-shared", gasEnvCfg{NC: 1, NotaryOff: true, NAlpha: 4, WFee: i64p(1), CFee: i64p(1), IR: 1, AlphaIdx: []int64{0}},
+		func(g *gasEnv) []gasOp {
+			N := g.neofs.BytesBE()
+			return []gasOp{
+				{Kind: "gasTransfer", From: u(g, 0), To: N, Amount: bn(1000), Data: null, Signers: []string{"U0"}},
+				{Kind: "cheque", ID: []byte{1}, To: u(g, 3), Amount: bn(10), Lock: []byte{7}, Signers: []string{"A0"}},
+				{Kind: "cheque", ID: []byte{1}, To: u(g, 3), Amount: bn(10), Lock: []byte{7}, Signers: []string{"A1"}},
+				{Kind: "cheque", ID: []byte{1}, To: g.plain[0], Amount: bn(999), Lock: []byte{8}, Signers: []string{"A2"}},
+				{Kind: "cheque", ID: []byte{1}, To: u(g, 3), Amount: bn(10), Lock: []byte{7}, Signers: []string{"A3"}},
+			}
+		}})
+	out = append(out, gasCorpusEntry{"fees-unset", gasEnvCfg{NC: 1, IR: 1, AlphaIdx: []int64{0}}, lifecycle})
+	out = append(out, gasCorpusEntry{"fees-negative", gasEnvCfg{NC: 1, NotaryOff: true, NAlpha: 3, WFee: i64p(-1), CFee: i64p(-5), IR: 1, AlphaIdx: []int64{0}}, lifecycle})
+	// emit: small g, inner ring sizes, permission
+	emitHist := func(g *gasEnv) []gasOp {
+		var ops []gasOp
+		right := func(ai int) string {
+			cm := g.committeeKeys()
+			idx := g.cfg.AlphaIdx[ai]
+			if idx >= 0 && idx < int64(len(cm)) {
+				for i, k := range g.committee {
+					if bytes.Equal(k.PublicKey().Bytes(), cm[idx]) {
+						return fmt.Sprintf("C%d", i)
+					}
+				}
+			}
+			return "C0"
+		}
+		A := g.alphabets[0].BytesBE()
+		ops = append(ops, gasOp{Kind: "emit", To: A, Signers: []string{right(0)}}) // g = 0
+		for _, a := range []int64{1, 1, 1, 1, 2, 6, 7, 8, 9, 15, 16, 17, 1000, 12345} {
+			// g = balance left + a
+			ops = append(ops, gasOp{Kind: "gasTransfer", From: u(g, 0), To: A, Amount: bn(a), Data: null, Signers: []string{"U0"}},
+				gasOp{Kind: "emit", To: A, Signers: []string{right(0)}})
+		}
+		ops = append(ops, gasOp{Kind: "emit", To: A, Signers: []string{"U0"}})
+		for i := 0; i < g.cfg.NC; i++ {
+			ops = append(ops, gasOp{Kind: "emit", To: A, Signers: []string{fmt.Sprintf("C%d", i)}})
+		}
+		ops = append(ops, gasOp{Kind: "neoTransfer", From: g.E.Validator.ScriptHash().BytesBE(), To: A, Amount: bn(50_000_000), Data: null, Signers: []string{"validator"}},
+			gasOp{Kind: "emit", To: A, Signers: []string{right(0)}},
+			gasOp{Kind: "emit", To: A, Signers: []string{right(0)}},
+			gasOp{Kind: "gasTransfer", From: u(g, 0), To: A, Amount: bn(1_000_000_000_000), Data: null, Signers: []string{"U0"}},
+			gasOp{Kind: "emit", To: A, Signers: []string{right(0)}})
+		for ai := 1; ai < len(g.alphabets); ai++ {
+			B := g.alphabets[ai].BytesBE()
+			ops = append(ops, gasOp{Kind: "gasTransfer", From: u(g, 0), To: B, Amount: bn(1000), Data: null, Signers: []string{"U0"}})
+			for i := 0; i < g.cfg.NC; i++ {
+				ops = append(ops, gasOp{Kind: "emit", To: B, Signers: []string{fmt.Sprintf("C%d", i)}})
+			}
+		}
+		return ops
+	}
+	irSizes := []int{0, 1, 3, 7}
+	if thorough {
+		irSizes = []int{0, 1, 2, 3, 4, 5, 6, 7}
+	}
+	for _, n := range irSizes {
+		out = append(out, gasCorpusEntry{fmt.Sprintf("emit-ir%d", n), gasEnvCfg{NC: 1, WFee: i64p(7), CFee: i64p(11), IR: n, AlphaIdx: []int64{0}}, emitHist})
+	}
+	out = append(out, gasCorpusEntry{"emit-committee4", gasEnvCfg{NC: 4, WFee: i64p(7), CFee: i64p(11), IR: 2, AlphaIdx: []int64{2, 0, 4, -1}}, emitHist})
+	out = append(out, gasCorpusEntry{"emit-proxy-plain", gasEnvCfg{NC: 1, WFee: i64p(7), CFee: i64p(11), IR: 2, AlphaIdx: []int64{0}, ProxyKind: 1}, emitHist})
+	out = append(out, gasCorpusEntry{"emit-proxy-neofs", gasEnvCfg{NC: 1, WFee: i64p(7), CFee: i64p(11), IR: 2, AlphaIdx: []int64{0}, ProxyKind: 2}, emitHist})
+	if thorough {
+		out = append(out, gasCorpusEntry{"emit-committee7", gasEnvCfg{NC: 7, WFee: i64p(7), CFee: i64p(11), IR: 5, AlphaIdx: []int64{6, 3, 7}}, emitHist})
+	}
+	return out
+}
+
+// ---------------------------------------------------------------------------
+// Monitor: the property on the observed trace, written from the property text
+// (independent of the Coq model).
+
+type gasMon struct {
+	g        *gasEnv
+	st       *Stats
+	hist     []string
+	prev     gasObs
+	init     *big.Int // GAS of NeoFS at the start
+	received *big.Int
+	paid     *big.Int
+	bad      bool
+}
+
+func (m *gasMon) violate(what string) {
+	m.bad = true
+	m.st.AddViolation(what, map[string]any{"cfg": m.g.cfg, "ops": m.hist})
+}
+
+func dataBytes(d gasData) (b []byte, isNull, ok bool) {
+	switch d.Kind {
+	case "bytes":
+		return d.B, false, true
+	case "int":
+		return le(d.I), false, true
+	case "bool":
+		if d.T {
+			return []byte{1}, false, true
+		}
+		return []byte{0}, false, true
+	case "array":
+		return nil, false, false
+	}
+	return nil, true, true
+}
+
+func isMarker(d gasData) bool {
+	b, isNull, ok := dataBytes(d)
+	return ok && !isNull && bytes.Equal(b, gasMarker)
+}
+
+// neofsAccepts: does NeoFS' onNEP17Payment accept (from, amount, data) from token `gas`?
+// rcv is the receiver the Deposit must name (nil when none is expected).
+func neofsAccepts(isGas bool, from []byte, amount *big.Int, d gasData) (accept, deposit bool, rcv []byte) {
+	b, isNull, ok := dataBytes(d)
+	if !ok {
+		return false, false, nil
+	}
+	if !isNull && bytes.Equal(b, gasMarker) {
+		return true, false, nil
+	}
+	if !isGas || amount.Sign() <= 0 || amount.Cmp(gasMax) > 0 {
+		return false, false, nil
+	}
+	switch {
+	case isNull || len(b) == 0:
+		return true, true, from
+	case len(b) == 20:
+		return true, true, b
+	}
+	return false, false, nil
+}
+
+func (m *gasMon) kindOf(a []byte) string {
+	g := m.g
+	switch {
+	case bytes.Equal(a, g.neofs.BytesBE()):
+		return "neofs"
+	case bytes.Equal(a, g.processing.BytesBE()):
+		return "processing"
+	case bytes.Equal(a, g.proxy.BytesBE()):
+		return "proxy"
+	case bytes.Equal(a, g.accept.BytesBE()):
+		return "accept"
+	case bytes.Equal(a, g.token.BytesBE()):
+		return "nomethod"
+	}
+	for _, x := range g.alphabets {
+		if bytes.Equal(a, x.BytesBE()) {
+			return "alphabet"
+		}
+	}
+	return "none"
+}
+
+// accepts: would the contract at `to` accept a payment (token: "gas", "neo", "other")?
+func (m *gasMon) accepts(to []byte, token string, from []byte, amount *big.Int, d gasData) (accept, deposit bool, rcv []byte) {
+	switch m.kindOf(to) {
+	case "neofs":
+		return neofsAccepts(token == "gas", from, amount, d)
+	case "processing", "proxy":
+		return token == "gas", false, nil
+	case "alphabet":
+		return token == "gas" || token == "neo", false, nil
+	case "accept", "none":
+		return true, false, nil
+	}
+	return false, false, nil
+}
+
+func (m *gasMon) inWit(o gasObs, a []byte) bool {
+	for _, w := range o.wit {
+		if bytes.Equal(w, a) {
+			return true
+		}
+	}
+	return false
+}
+
+func (m *gasMon) accOfKey(k []byte) []byte {
+	g := m.g
+	for _, l := range [][]*wallet.Account{g.users, g.alpha, g.irKeys, g.committee} {
+		for _, a := range l {
+			if bytes.Equal(a.PublicKey().Bytes(), k) {
+				return a.ScriptHash().BytesBE()
+			}
+		}
+	}
+	return nil
+}
+
+func feeInt(isNil bool, b []byte) (*big.Int, bool) {
+	if isNil || len(b) > 32 {
+		return nil, false
+	}
+	bi, err := stackitem.NewByteArray(b).TryInteger()
+	if err != nil {
+		return nil, false
+	}
+	return bi, true
+}
+
+// checkDeltas compares the balance changes of all parties with exp (by address).
+func (m *gasMon) checkDeltas(what string, o gasObs, exp map[string]*big.Int) {
+	for i, p := range m.g.parties {
+		d := new(big.Int).Sub(o.bal[i], m.prev.bal[i])
+		w := exp[string(p)]
+		if w == nil {
+			w = new(big.Int)
+		}
+		if d.Cmp(w) != 0 {
+			m.violate(fmt.Sprintf("%s: GAS of %s changed by %s, expected %s", what, m.g.partyNames[i], d, w))
+		}
+	}
+}
+
+func addTo(exp map[string]*big.Int, a []byte, v *big.Int) {
+	if exp[string(a)] == nil {
+		exp[string(a)] = new(big.Int)
+	}
+	exp[string(a)].Add(exp[string(a)], v)
+}
+
+func evIs(e gasEv, kind int, a, b []byte, amount *big.Int) bool {
+	return e.kind == kind && bytes.Equal(e.a, a) && bytes.Equal(e.b, b) && (amount == nil || e.amount.Cmp(amount) == 0)
+}
+
+func (m *gasMon) step(op gasOp, o gasObs) {
+	g := m.g
+	m.hist = append(m.hist, op.String())
+	N := g.neofs.BytesBE()
+	what := fmt.Sprintf("op %d %s", len(m.hist)-1, op.Kind)
+	exp := map[string]*big.Int{}
+	neg := func(z *big.Int) *big.Int { return new(big.Int).Neg(z) }
+	mustHalt := func(want bool, why string) {
+		if want != o.halt {
+			m.violate(fmt.Sprintf("%s: halted=%v but the property demands %v (%s); fault=%q", what, o.halt, want, why, o.fault))
+		}
+	}
+	// expected event list (nil = do not check beyond the generic rules)
+	var wantEvs []gasEv
+	checkEvs := false
+	gasEvent := func(f, t []byte, a *big.Int) gasEv { return gasEv{kind: 0, a: f, b: t, amount: a} }
+
+	switch op.Kind {
+	case "gasTransfer":
+		pre := len(op.From) == 20 && len(op.To) == 20
+		if !pre {
+			mustHalt(false, "address is not 20 bytes")
+			break
+		}
+		can := op.Amount.Sign() >= 0 && m.inWit(o, op.From) && m.balOf(op.From).Cmp(op.Amount) >= 0
+		if !can {
+			if !o.halt || o.ret != VBool(false) {
+				m.violate(what + ": transfer without witness/funds must return false")
+			}
+			checkEvs = true
+			break
+		}
+		acc, dep, rcv := m.accepts(op.To, "gas", op.From, op.Amount, op.Data)
+		mustHalt(acc, "acceptance rule of the receiver")
+		if o.halt {
+			if o.ret != VBool(true) {
+				m.violate(what + ": accepted transfer must return true")
+			}
+			addTo(exp, op.From, neg(op.Amount))
+			addTo(exp, op.To, op.Amount)
+			checkEvs = true
+			wantEvs = []gasEv{gasEvent(op.From, op.To, op.Amount)}
+			if dep {
+				wantEvs = append(wantEvs, gasEv{kind: 1, a: op.From, amount: op.Amount, b: rcv, c: o.txhash})
+			}
+		}
+	case "tokenTransfer", "tokenPay", "directPay":
+		acc, _, _ := m.accepts(op.To, "other", op.From, op.Amount, op.Data)
+		if m.kindOf(op.To) == "none" {
+			acc = false // nothing to call
+		}
+		mustHalt(acc, "only GAS (Alphabet: and NEO) may pay; NeoFS: or the marker")
+		checkEvs = true
+	case "neoTransfer":
+		acc, _, _ := m.accepts(op.To, "neo", op.From, op.Amount, op.Data)
+		mustHalt(acc, "NEO is accepted by Alphabet contracts only (NeoFS: marker)")
+		if o.halt {
+			addTo(exp, op.To, o.minted)
+			checkEvs = true
+			if o.minted.Sign() > 0 {
+				wantEvs = []gasEv{gasEvent(nil, op.To, o.minted)}
+				if bytes.Equal(op.To, N) {
+					wantEvs = append(wantEvs, gasEv{kind: 1, a: nil, amount: o.minted, b: nil, c: o.txhash})
+				}
+			}
+		}
+	case "withdraw":
+		fee, feeOK := feeInt(m.prev.wfeeNil, m.prev.wfee)
+		var rcpts [][]byte
+		keysOK := true
+		if g.cfg.NotaryOff {
+			for _, k := range m.prev.alpha {
+				a := m.accOfKey(k)
+				if a == nil {
+					keysOK = false
+				}
+				rcpts = append(rcpts, a)
+			}
+		} else {
+			rcpts = [][]byte{g.processing.BytesBE()}
+		}
+		total := new(big.Int)
+		if feeOK {
+			total.Mul(fee, bn(int64(len(rcpts))))
+		}
+		want := len(op.From) == 20 && m.inWit(o, op.From) && op.Amount.Sign() >= 0 && op.Amount.Cmp(bn(9000)) <= 0 &&
+			feeOK && fee.Sign() >= 0 && keysOK && m.balOf(op.From).Cmp(total) >= 0
+		mustHalt(want, "withdraw preconditions (witness, 0<=amount<=9000, fee configured and affordable)")
+		if o.halt && want {
+			checkEvs = true
+			for _, r := range rcpts {
+				addTo(exp, op.From, neg(fee))
+				addTo(exp, r, fee)
+				wantEvs = append(wantEvs, gasEvent(op.From, r, fee))
+			}
+			wantEvs = append(wantEvs, gasEv{kind: 2, a: op.From, amount: new(big.Int).Mul(op.Amount, bn(1_0000_0000)), c: o.txhash})
+		}
+	case "cheque":
+		lock := op.Lock
+		payout := func() {
+			addTo(exp, N, neg(op.Amount))
+			addTo(exp, op.To, op.Amount)
+			checkEvs = true
+			wantEvs = []gasEv{gasEvent(N, op.To, op.Amount)}
+			if _, dep, rcv := m.accepts(op.To, "gas", N, op.Amount, gasData{}); dep {
+				wantEvs = append(wantEvs, gasEv{kind: 1, a: N, amount: op.Amount, b: rcv, c: o.txhash})
+			}
+			wantEvs = append(wantEvs, gasEv{kind: 3, a: op.ID, b: op.To, amount: op.Amount, c: lock})
+		}
+		acc, _, _ := m.accepts(op.To, "gas", N, op.Amount, gasData{})
+		payable := len(op.To) == 20 && op.Amount.Sign() >= 0 && m.balOf(N).Cmp(op.Amount) >= 0 && acc
+		if !g.cfg.NotaryOff {
+			auth := m.inWit(o, g.alphaMulti.ScriptHash().BytesBE())
+			mustHalt(auth && payable, "cheque needs the Alphabet multi-signature and a payable amount")
+			if o.halt && auth && payable {
+				payout()
+			}
+		} else {
+			auth := false
+			for _, k := range m.prev.alpha {
+				if a := m.accOfKey(k); a != nil && m.inWit(o, a) {
+					auth = true
+				}
+			}
+			if !auth {
+				mustHalt(false, "cheque needs an Alphabet key")
+			}
+			if o.halt {
+				paid := false
+				for _, e := range o.evs {
+					if e.kind == 3 {
+						paid = true
+					}
+				}
+				if paid {
+					if !payable {
+						m.violate(what + ": paid a cheque that is not payable")
+					}
+					payout()
+				} else {
+					checkEvs = true // vote recorded: nothing moves, nothing is announced
+				}
+			}
+		}
+	case "candAdd":
+		fee, feeOK := feeInt(m.prev.cfeeNil, m.prev.cfee)
+		acct := m.accOfKey(op.Key)
+		already := false
+		for _, c := range m.prev.cands {
+			if bytes.Equal(c, op.Key) {
+				already = true
+			}
+		}
+		want := acct != nil && m.inWit(o, acct) && !already && feeOK && fee.Sign() >= 0 && m.balOf(acct).Cmp(fee) >= 0
+		mustHalt(want, "candidate registration preconditions")
+		if o.halt && want {
+			addTo(exp, acct, neg(fee))
+			addTo(exp, N, fee)
+			checkEvs = true
+			wantEvs = []gasEv{gasEvent(acct, N, fee)}
+			found := false
+			for _, c := range o.cands {
+				if bytes.Equal(c, op.Key) {
+					found = true
+				}
+			}
+			if !found {
+				m.violate(what + ": candidate paid the fee but is not listed")
+			}
+		}
+	case "emit":
+		ai := -1
+		for i, a := range g.alphabets {
+			if bytes.Equal(a.BytesBE(), op.To) {
+				ai = i
+			}
+		}
+		idx := g.cfg.AlphaIdx[ai]
+		cm := g.committeeKeys()
+		perm := idx >= 0 && idx < int64(len(cm)) && m.inWit(o, m.accOfKey(cm[idx]))
+		if o.halt && !perm {
+			m.violate(what + ": emit halted without the witness of committee[index] of this contract")
+		}
+		irl := g.irList()
+		gb := new(big.Int).Add(m.balOf(op.To), o.minted)
+		half := new(big.Int).Quo(gb, bn(2))
+		P := g.proxyAddr.BytesBE()
+		pacc, pdep, prcv := m.accepts(P, "gas", op.To, half, gasData{})
+		want := perm && half.Sign() > 0 && len(irl) > 0 && pacc
+		mustHalt(want, "emit: permission, g >= 2, N >= 1, proxy accepts")
+		if o.halt && want {
+			rest := new(big.Int).Sub(gb, half)
+			per := new(big.Int).Mul(rest, bn(7))
+			per.Quo(per, bn(8))
+			per.Quo(per, bn(int64(len(irl))))
+			checkEvs = true
+			addTo(exp, op.To, o.minted)
+			if o.minted.Sign() > 0 {
+				wantEvs = append(wantEvs, gasEvent(nil, op.To, o.minted))
+			}
+			addTo(exp, op.To, neg(half))
+			addTo(exp, P, half)
+			wantEvs = append(wantEvs, gasEvent(op.To, P, half))
+			if pdep {
+				wantEvs = append(wantEvs, gasEv{kind: 1, a: op.To, amount: half, b: prcv, c: o.txhash})
+			}
+			if per.Sign() > 0 {
+				for _, k := range irl {
+					a := m.accOfKey(k)
+					addTo(exp, op.To, neg(per))
+					addTo(exp, a, per)
+					wantEvs = append(wantEvs, gasEvent(op.To, a, per))
+				}
+			}
+			// the contract keeps a non-negative rest
+			keep := new(big.Int).Sub(rest, new(big.Int).Mul(per, bn(int64(len(irl)))))
+			if keep.Sign() < 0 {
+				m.violate(what + ": the Alphabet contract would keep a negative rest")
+			}
+			sum := new(big.Int)
+			for _, v := range exp {
+				sum.Add(sum, v)
+			}
+			if sum.Cmp(o.minted) != 0 {
+				m.violate(what + ": emit created or lost GAS")
+			}
+		}
+	default: // candRemove bind unbind setConfig alphabetUpdate verify: never move GAS
+		for _, e := range o.evs {
+			if e.kind == 0 || e.kind == 1 || e.kind == 2 || e.kind == 3 {
+				m.violate(what + ": unexpected GAS/Deposit/Withdraw/Cheque notification")
+			}
+		}
+	}
+	if !o.halt && len(o.evs) != 0 {
+		m.violate(what + ": faulted invocation left notifications")
+	}
+	m.checkDeltas(what, o, exp)
+	if checkEvs {
+		if len(wantEvs) != len(o.evs) {
+			m.violate(fmt.Sprintf("%s: %d notifications, expected %d", what, len(o.evs), len(wantEvs)))
+		} else {
+			for i := range wantEvs {
+				we, oe := wantEvs[i], o.evs[i]
+				if we.kind != oe.kind || !bytes.Equal(we.a, oe.a) || !bytes.Equal(we.b, oe.b) || !bytes.Equal(we.c, oe.c) ||
+					(we.amount != nil && we.amount.Cmp(oe.amount) != 0) {
+					m.violate(fmt.Sprintf("%s: notification %d differs from what the property demands", what, i))
+				}
+			}
+		}
+	}
+	// balance identity and honest Deposit reports
+	out := new(big.Int)
+	chq := new(big.Int)
+	for i, e := range o.evs {
+		switch e.kind {
+		case 0:
+			if bytes.Equal(e.b, N) {
+				m.received.Add(m.received, e.amount)
+			}
+			if bytes.Equal(e.a, N) {
+				out.Add(out, e.amount)
+			}
+		case 1:
+			if i == 0 || !evIs(o.evs[i-1], 0, e.a, N, e.amount) {
+				m.violate(what + ": Deposit notification without the matching GAS Transfer to NeoFS just before it")
+			}
+			if e.amount.Sign() <= 0 || e.amount.Cmp(gasMax) > 0 {
+				m.violate(what + ": Deposit outside (0, 9000 GAS]")
+			}
+		case 3:
+			chq.Add(chq, e.amount)
+			m.paid.Add(m.paid, e.amount)
+		}
+	}
+	if out.Cmp(chq) != 0 {
+		m.violate(what + ": GAS left NeoFS other than by a cheque of that amount")
+	}
+	ni := 0
+	idn := new(big.Int).Add(m.init, m.received)
+	idn.Sub(idn, m.paid)
+	if o.bal[ni].Cmp(idn) != 0 {
+		m.violate(fmt.Sprintf("%s: gas(NeoFS)=%s but received-paid=%s", what, o.bal[ni], idn))
+	}
+	m.prev = o
+}
+
+func (m *gasMon) balOf(a []byte) *big.Int {
+	for i, p := range m.g.parties {
+		if bytes.Equal(p, a) {
+			return m.prev.bal[i]
+		}
+	}
+	return new(big.Int)
+}
+
+// ---------------------------------------------------------------------------
+
+func TestC19(t *testing.T) {
+	st := NewStats("C19")
+	st.Rule = "histories = hand-written boundary corpus (deposit amounts 0,1,9000 GAS +-1, all data shapes, both notary modes, alphabet sizes, " +
+		"unset/negative fees, emit with g = 0..17 and inner ring sizes) + seeded structured generation over random deployments " +
+		"(committee size, notary mode, alphabet list size, fees, inner ring size 0..7, alphabet indices, proxy kind); " +
+		"non-trivial = the history contains at least one accepted GAS movement and at least one refusal/fault; " +
+		"distinct = by deployment configuration + canonical op/outcome/amount/data string"
+	thorough := Tier() == "thorough"
+	nh, minOps, maxOps := 50, 8, 18
+	if thorough {
+		nh, minOps, maxOps = 400, 10, 30
+	}
+	distinct := map[string]bool{}
+	var files []*CasesFile
+	newFile := func() *CasesFile {
+		cf := &CasesFile{Pool: NewPool("b")}
+		cf.Header = "From Verif Require Import Base.Prelude Base.IntCodec Model.Gas Model.NeoFSGas Model.GasWorld.\nLocal Open Scope Z_scope.\n"
+		cf.Footer = "Definition check_case (c : env * list bytes * world * list ((ctx * op) * val)) :=\n" +
+			"  let '(e, pool, w, tr) := c in run_case (wstep_obs e pool) w 0 tr.\n" +
+			"Definition M := Eval vm_compute in failures_from 0 (map check_case cases).\nPrint M.\n"
+		files = append(files, cf)
+		return cf
+	}
+	cf := newFile()
+	size := 0
+	run := func(name string, cfg gasEnvCfg, next func(g *gasEnv, gg *gasGen, step int) (gasOp, bool), seed int64) {
+		g := newGasEnv(t, cfg)
+		if thorough && size > 450_000 {
+			cf = newFile()
+			size = 0
+		}
+		pool := cf.Pool
+		gg := &gasGen{r: Rng(seed), g: g}
+		var o0 gasObs
+		g.observeState(&o0)
+		gg.prev = o0
+		mon := &gasMon{g: g, st: st, prev: o0, init: new(big.Int).Set(o0.bal[0]), received: new(big.Int), paid: new(big.Int)}
+		cm := g.committeeKeys()
+		irl := g.irList()
+		var steps []string
+		var sig strings.Builder
+		fmt.Fprintf(&sig, "%+v|", cfg)
+		accepted, refused := false, false
+		var sample []string
+		for i := 0; ; i++ {
+			op, ok := next(g, gg, i)
+			if !ok {
+				break
+			}
+			o := g.exec(op)
+			mon.step(op, o)
+			steps = append(steps, fmt.Sprintf("(%s, %s)", g.coqOp(pool, op, o), g.coqObs(pool, gg.prev, o)))
+			st.Evaluations++
+			st.OpHistogram[op.Kind]++
+			oc := "fault"
+			moved := false
+			for j := range o.bal {
+				if o.bal[j].Cmp(gg.prev.bal[j]) != 0 {
+					moved = true
+				}
+			}
+			switch {
+			case o.halt && o.ret == VBool(false):
+				oc = "false"
+				refused = true
+			case o.halt && moved:
+				oc = "moved"
+				accepted = true
+			case o.halt:
+				oc = "halt"
+			default:
+				refused = true
+			}
+			st.OutcomeHistogram[op.Kind+"/"+oc]++
+			fmt.Fprintf(&sig, "%s:%s:%v:%s;", op.Kind, oc, op.Amount, op.Data.Kind)
+			if len(sample) < 8 {
+				sample = append(sample, op.String()+" -> "+oc)
+			}
+			gg.prev = o
+		}
+		st.Histories++
+		if accepted && refused {
+			distinct[sig.String()] = true
+		}
+		if len(st.Samples) < 3 && (name == "deposit-boundaries" || name == "lifecycle-nonotary-4" || name == "random-0") {
+			st.Samples = append(st.Samples, map[string]any{"history": name, "cfg": cfg, "first_ops": sample})
+		}
+		cx := fmt.Sprintf("fun w fa h tx => mkCtx w %s %s fa %s %s h tx", pool.Ref(g.alphaMulti.ScriptHash().BytesBE()),
+			pool.Ref(g.E.Committee.ScriptHash().BytesBE()), refList(pool, cm), refList(pool, irl))
+		c := fmt.Sprintf("(let cx := %s in\n (%s, %s, %s,\n %s))", cx, g.coqEnv(pool), refList(pool, g.parties), g.coqInit(pool, o0), ListLit(steps))
+		size += len(c)
+		cf.Cases = append(cf.Cases, c)
+	}
+	for ci, ce := range gasCorpus(thorough) {
+		ce := ce
+		var ops []gasOp
+		run(ce.name, ce.cfg, func(g *gasEnv, gg *gasGen, step int) (gasOp, bool) {
+			if step == 0 {
+				ops = ce.ops(g)
+			}
+			if step >= len(ops) {
+				return gasOp{}, false
+			}
+			return ops[step], true
+		}, int64(-1-ci))
+	}
+	for h := 0; h < nh; h++ {
+		r := Rng(int64(1000 + h))
+		cfg := gasRandomCfg(r, thorough)
+		n := minOps + r.Intn(maxOps-minOps+1)
+		run(fmt.Sprintf("random-%d", h), cfg, func(g *gasEnv, gg *gasGen, step int) (gasOp, bool) {
+			if step >= n {
+				return gasOp{}, false
+			}
+			return gg.next(step), true
+		}, int64(h))
+	}
+	st.DistinctNontrivial = len(distinct)
+	for i, f := range files {
+		name := "cases_C19.v"
+		if len(files) > 1 {
+			name = fmt.Sprintf("cases_C19_%d.v", i)
+		}
+		require.NoError(t, f.Write(filepath.Join(OutDir(), name)))
+	}
+	st.Write()
 }
